@@ -200,7 +200,7 @@ def rand_fragment(rng, natoms=None, lower_ok=False, stereo_ok=True):
         if i >= 2 and rng.random() < 0.15:
             x, y = rng.sample(range(i + 1), 2)
             if frozenset((x, y)) not in bonds:
-                w = rng.choice(['ring', 'single', 'any', 'aromatic', 'double'])
+                w = rng.choice(['ring', 'single', 'any', 'aromatic', 'double'] + BONDS)   # every bond word can close a ring
                 items.append(('ringbond', labels[x], w, labels[y]))
                 bonds.add(frozenset((x, y)))
                 bondword[frozenset((x, y))] = w
